@@ -51,6 +51,8 @@ type peerConn struct {
 	sawOpen     bool
 	closedByPeer bool
 	mode        string
+	handshakeOver bool
+	as4         bool // this connection's peer announces the 4-byte-AS capability
 }
 
 type gworld struct {
@@ -63,6 +65,8 @@ type gworld struct {
 	myASN, peerASN uint32
 	ibgp           bool
 	peerAS4        bool
+	varyAS4        bool
+	handshakes     int // connections whose handshake is in flight
 	hold           time.Duration
 	routerID       net.IP
 	localIP        net.IP
@@ -136,7 +140,16 @@ func (w *gworld) dial(ctx context.Context, addr string, src net.IP, password str
 		client.Fragment = func(avail int) int { return 1 + w.pick(avail, "fragment") }
 	}
 	pc := &peerConn{id: len(w.conns) + 1, conn: server, client: client, rib: map[string]route{}}
-	pc.dec.FourByteAS = w.peerAS4
+	// the peer's 4-byte-AS capability may differ from one connection to the next (a router
+	// restarted with another software version) when both AS numbers fit in two bytes
+	pc.as4 = w.peerAS4
+	if w.myASN <= 65535 && w.peerASN <= 65535 && w.varyAS4 {
+		pc.as4 = w.pick(2, "this connection 4-byte capable") == 1
+		if pc.as4 != w.peerAS4 {
+			w.stat("probe.peer-capability-differs-from-the-previous-connections")
+		}
+	}
+	pc.dec.FourByteAS = pc.as4
 	w.conns = append(w.conns, pc)
 	// the peer's behaviour on this connection
 	pc.mode = "normal"
@@ -162,7 +175,16 @@ func (w *gworld) dial(ctx context.Context, addr string, src net.IP, password str
 		w.stat("fault.peer-" + pc.mode)
 		w.lastFault = simrt.Now()
 	}
-	w.s.GoNamed(fmt.Sprintf("peer%d", pc.id), true, func() { w.peer(pc) })
+	w.handshakes++
+	w.s.GoNamed(fmt.Sprintf("peer%d", pc.id), true, func() {
+		defer func() {
+			if !pc.handshakeOver {
+				pc.handshakeOver = true
+				w.handshakes--
+			}
+		}()
+		w.peer(pc)
+	})
 	return client, nil
 }
 
@@ -335,7 +357,7 @@ func (w *gworld) peer(pc *peerConn) {
 		as16 = 23456
 	}
 	var caps []byte
-	if w.peerAS4 {
+	if pc.as4 {
 		caps = append(caps, bgpwire.CapAS4(asn)...)
 	}
 	if w.pick(2, "peer mp cap") == 1 {
@@ -351,7 +373,11 @@ func (w *gworld) peer(pc *peerConn) {
 	if _, err := c.Write(bgpwire.EncodeKeepalive()); err != nil {
 		return
 	}
-	acceptable := pc.mode != "wrong-asn" && pc.mode != "open-delayed" && !(w.myASN > 65535 && !w.peerAS4)
+	if !pc.handshakeOver {
+		pc.handshakeOver = true
+		w.handshakes--
+	}
+	acceptable := pc.mode != "wrong-asn" && pc.mode != "open-delayed" && !(w.myASN > 65535 && !pc.as4)
 	pc.established = acceptable
 	dropAfter := -1
 	if pc.mode == "drop-later" {
@@ -490,8 +516,16 @@ func (w *gworld) workload(sm bgp.SessionManager) {
 			panic(fmt.Sprintf("Set refused a valid advertisement set: %v", err))
 		}
 	}
-	if w.pick(4, "close at end") == 0 {
-		simrt.Sleep(time.Duration(w.pick(3000, "before close ms")) * time.Millisecond)
+	if cm := w.pick(8, "close at end"); cm < 3 {
+		if cm == 2 {
+			// Close while a connection attempt / handshake is in flight (if one comes up within a minute)
+			w.s.Park(&simrt.Op{Kind: "await-handshake", Obj: "", Deadline: time.Now().Add(time.Minute), Enabled: func() bool { return w.handshakes > 0 }})
+			if w.handshakes > 0 {
+				w.stat("probe.close-during-a-handshake")
+			}
+		} else {
+			simrt.Sleep(time.Duration(w.pick(3000, "before close ms")) * time.Millisecond)
+		}
 		_ = sess.Close()
 		w.closed = true
 		w.closeDials = simnet.Dials
@@ -563,6 +597,7 @@ func gnativeRun(env *runner.Env) (res *runner.Result) {
 		if w.myASN > 65535 && !w.peerAS4 && env.On("C17") && w.pick(4, "allow 4-byte AS towards 2-byte peer") != 0 {
 			w.peerAS4 = true // mostly avoid the combination the session (rightly) refuses forever
 		}
+		w.varyAS4 = w.pick(3, "vary 4-byte capability per connection") == 0
 		w.hold = []time.Duration{90 * time.Second, 3 * time.Second, 30 * time.Second}[w.pick(3, "hold time")]
 		w.localIP = net.IPv4(10, 0, 0, 2).To4() // the kernel hands out 4-byte addresses for IPv4 sockets
 		if w.pick(2, "router id given") == 1 {
